@@ -1337,3 +1337,221 @@ SUBCHECKS += [
     Sub("nesting_beyond_the_stack", sub_deep, body_deep, shards={"quick": 14, "thorough": 14}, exhaustive=True, cost=2,
         rule="10 DSL shapes nested 150000-1200000 deep and 4 JSON documents nested up to 5000000 deep: rejected with an mlr: error or evaluated, never a Go stack-overflow abort"),
 ]
+
+
+# --------------------------------------------------------------------------------------------
+# 6. coverage-guided in-process fuzzing (thorough tier only): /verif/fuzz, Go native fuzzing
+
+FUZZ_TARGETS = ["FuzzBIF1", "FuzzBIF2", "FuzzBIF3", "FuzzInfer", "FuzzJSON", "FuzzStrptime", "FuzzUnbackslashAndRegex"]
+
+
+def _go_string_literals(path):
+    """Arguments of a saved Go fuzz input file (`go test fuzz v1` format) as Python bytes / ints."""
+    import ast
+    out = []
+    with open(path, "r", encoding="utf-8", errors="surrogateescape") as f:
+        lines = f.read().split("\n")[1:]
+    for ln in lines:
+        ln = ln.strip()
+        m = re.match(r"^(string|\[\]byte)\((.*)\)$", ln, re.S)
+        if m:
+            lit = m.group(2)
+            try:
+                # Go interpreted string literals are close enough to Python bytes literals (\x, \n, \t, \\, \", \u are handled below)
+                val = ast.literal_eval("b" + lit) if "\\u" not in lit and "\\U" not in lit and all(ord(c) < 128 for c in lit) else ast.literal_eval(lit).encode("utf-8", "surrogateescape")
+            except Exception:
+                val = lit.encode("utf-8", "surrogateescape")
+            out.append(val)
+            continue
+        m = re.match(r"^u?int\d*\((\d+)\)$", ln)
+        if m:
+            out.append(int(m.group(1)))
+    return out
+
+
+def dsl_literal(b):
+    """bytes -> a DSL string literal denoting them (printable ASCII kept, the rest as \\xHH)"""
+    out = []
+    for c in b:
+        ch = chr(c)
+        if ch == '"' or ch == "\\":
+            out.append("\\" + ch)
+        elif 32 <= c < 127:
+            out.append(ch)
+        else:
+            out.append("\\x%02x" % c)
+    return '"' + "".join(out) + '"'
+
+
+def _arg_expr(b):
+    """the DSL expression closest to fuzz_test.go's decodeArg(b)"""
+    if not b:
+        return "$nosuch"
+    k, rest = b[0] % 8, b[1:]
+    if k in (0, 7):
+        t = rest.strip() if k == 7 else rest
+        try:
+            s = t.decode("ascii")
+            if re.match(r"^-?(0|[1-9][0-9]*)(\.[0-9]+)?([eE][-+]?[0-9]+)?$", s):
+                return s
+        except UnicodeDecodeError:
+            pass
+        return dsl_literal(t)
+    if k == 1:
+        return dsl_literal(rest)
+    if k == 2:
+        try:
+            json.loads(rest.decode("utf-8"))
+            return "json_decode(%s)" % dsl_literal(rest)
+        except Exception:
+            return dsl_literal(rest)
+    if k == 3:
+        return "true" if len(rest) % 2 == 0 else "false"
+    if k == 4:
+        return str(len(rest) - 3)
+    if k == 5:
+        return '(1 + "q")'
+    return "$nosuch"
+
+
+def cli_confirmations(ctx, target, args, bif_tables):
+    """CLI invocations that feed the crashing arguments to the same code through the mlr command line: list of (argv, stdin)."""
+    out = []
+    try:
+        if target == "FuzzUnbackslashAndRegex":
+            s = args[0]
+            arg = s.decode("utf-8", "surrogateescape")
+            if "\x00" not in arg:
+                out += [(["cut", "-r", "-f", arg], b"a=1\n"), (["rename", "-r", arg + ",x"], b"a=1\n"), (["having-fields", "--any-defined", arg], b"a=1\n"), (["grep", arg], b"a=1\n")]
+            lit = dsl_literal(s)
+            out += [(["-n", "put", 'end{print sub("abcabc", %s, "<\\1>"); print "abc" =~ %s; print gsub("abc", %s, "x"); print regextract_or_else("abc", %s, "no"); print splitax("a,b", %s)}' % (lit, lit, lit, lit, lit)], b"")]
+        elif target == "FuzzStrptime":
+            a, b = dsl_literal(args[0]), dsl_literal(args[1])
+            out += [(["-n", "put", 'end{print strptime(%s, %s); print strptime_local(%s, %s, "Asia/Tokyo"); print strpntime(%s, %s)}' % (a, b, a, b, a, b)], b"")]
+        elif target == "FuzzJSON":
+            out += [(["--ijson", "--ojson", "cat"], args[0]), (["--ijson", "--ojsonl", "put", "$new = json_encode($*)"], args[0]), (["--ijsonl", "--oxtab", "cat"], args[0])]
+        elif target == "FuzzInfer":
+            s = args[0]
+            if b"\n" not in s and b"\t" not in s:
+                out += [(["--inidx", "--ifs", "tab", "--ojson", "put", "$y = $1 . \"\"; $z = $1 + 1"], s + b"\n")]
+        elif target in ("FuzzBIF1", "FuzzBIF2", "FuzzBIF3"):
+            n = int(target[-1])
+            table = bif_tables[n]
+            name = table[args[0] % len(table)][4:]
+            exprs = [_arg_expr(a) for a in args[1:1 + n]]
+            alias = {"plus_binary": "+", "minus_binary": "-", "times": "*", "divide": "/", "int_divide": "//", "modulus": "%", "pow": "**", "dot": ".", "dot_plus": ".+", "dot_minus": ".-",
+                     "dot_times": ".*", "dot_divide": "./", "bitwise_and": "&", "bitwise_or": "|", "bitwise_xor": "^", "left_shift": "<<", "signed_right_shift": ">>", "unsigned_right_shift": ">>>",
+                     "equals": "==", "not_equals": "!=", "greater_than": ">", "greater_than_or_equals": ">=", "less_than": "<", "less_than_or_equals": "<=", "cmp": "<=>", "logical_XOR": "^^",
+                     "absent_coalesce_binary": "??", "absent_empty_coalesce_binary": "???", "min_binary": "min", "max_binary": "max", "logical_NOT": "!", "bitwise_NOT": "~", "minus_unary": "-", "plus_unary": "+"}
+            op = alias.get(name, name)
+            if re.match(r"^[a-z_0-9]+$", op):
+                e = "%s(%s)" % (op, ", ".join(exprs))
+            elif n == 1:
+                e = "%s (%s)" % (op, exprs[0])
+            else:
+                e = "(%s) %s (%s)" % (exprs[0], op, exprs[1])
+            out += [(["-n", "put", "end{print typeof(%s)}" % e], b""), (["--ijson", "--ojson", "put", "$o = %s" % e], b'{"x":1}')]
+    except Exception as e:   # a crasher whose arguments cannot be mapped to a command line stays unconfirmed
+        ctx.note("cannot build a CLI confirmation for %s: %s" % (target, e))
+    return out
+
+
+def replay_cli(ctx, case):
+    argv = case["argv"]
+    res = ctx.mlr(argv, stdin=case.get("stdin", "").encode("latin-1"), timeout=30, env_extra=ENV, as_limit=AS_LIMIT)
+    ctx.case(("cli", json.dumps(argv)), True)
+    if crashed(res) or res.timed_out:
+        ctx.fail(case, "Go crash or hang (found by in-process fuzzing, confirmed through the command line): mlr %s -> %s" % (" ".join(argv)[:300], res.err[:200].decode("utf-8", "replace")))
+
+
+def sub_native_fuzz(ctx):
+    if ctx.quick:
+        ctx.note("native fuzzing runs in the thorough tier only")
+        return
+    import shutil
+    import subprocess
+    from vlib import build as vbuild
+    repo = os.environ.get("VERIF_REPO", "/repo")
+    src = os.path.join(os.path.dirname(os.path.dirname(os.path.abspath(__file__))), "fuzz")
+    work = os.path.join(vrun.scratch(), "fuzzmod")
+    shutil.rmtree(work, ignore_errors=True)
+    os.makedirs(work)
+    shutil.copy(os.path.join(src, "fuzz_test.go"), work)
+    if os.path.isdir(os.path.join(src, "testdata")):
+        shutil.copytree(os.path.join(src, "testdata"), os.path.join(work, "testdata"))
+    with open(os.path.join(work, "go.mod"), "w") as f:
+        f.write("module verif/fuzz\n\ngo 1.25.0\n\nrequire github.com/johnkerl/miller/v6 v6.0.0\n\nreplace github.com/johnkerl/miller/v6 => %s\n" % repo)
+    shutil.copy(os.path.join(repo, "go.sum"), work)
+    env = vbuild.go_env()
+    env["VERIF_REPO"] = repo
+    gen = subprocess.run(["python3", os.path.join(os.path.dirname(src), "tools", "gen_fuzz_bifs.py"), os.path.join(work, "bifs_gen_test.go")], env=env, stdout=subprocess.PIPE, stderr=subprocess.STDOUT)
+    if gen.returncode != 0:
+        raise RuntimeError("gen_fuzz_bifs failed: %s" % gen.stdout[-500:])
+    tables = {}
+    gsrc = open(os.path.join(work, "bifs_gen_test.go")).read()
+    for n in (1, 2, 3):
+        blk = gsrc[gsrc.index("var bifs%d" % n):]
+        blk = blk[:blk.index("\n}\n")]
+        tables[n] = re.findall(r'\{"(BIF_\w+)"', blk)
+    targets = [t for i, t in enumerate(FUZZ_TARGETS) if i % ctx.nshards == ctx.shard]
+    budget = int(os.environ.get("VERIF_FUZZ_SECONDS", "75"))
+    for t in targets:
+        # regression: saved inputs first (plain `go test -run`), then the campaign
+        cmd = [vbuild.go_bin(), "test", "-run", "^$", "-fuzz", "^%s$" % t, "-fuzztime", "%ds" % budget, "-parallel", str(max(2, 16 // max(1, len(FUZZ_TARGETS) // ctx.nshards + 1))), "."]
+        try:
+            p = subprocess.run(cmd, cwd=work, env=env, stdout=subprocess.PIPE, stderr=subprocess.STDOUT, timeout=budget + 900)
+        except subprocess.TimeoutExpired:
+            ctx.inconclusive += 1
+            ctx.note("%s: go test did not finish" % t)
+            continue
+        out = p.stdout.decode("utf-8", "replace")
+        execs = [int(x) for x in re.findall(r"execs: (\d+)", out)]
+        n_exec = max(execs) if execs else 0
+        ctx.case(("fuzz", t), True, labels=("target:" + t, "execs:%d" % n_exec), count=max(1, n_exec), sample={"target": t, "executions": n_exec, "seconds": budget} if len(ctx.samples) < 4 else None)
+        if p.returncode == 0:
+            continue
+        m = re.search(r"Failing input written to (testdata/fuzz/\S+)", out)
+        if not m:
+            if "build failed" in out or "cannot find" in out or "no required module" in out:
+                raise RuntimeError("fuzz module does not build: %s" % out[-1500:])
+            ctx.inconclusive += 1
+            ctx.note("%s failed without a saved input: %s" % (t, out[-400:]))
+            continue
+        crasher = os.path.join(work, m.group(1))
+        args = _go_string_literals(crasher)
+        head = re.search(r"(panic: [^\n]*|--- FAIL[^\n]*\n\s+[^\n]*)", out)
+        confirmed = False
+        for argv, stdin in cli_confirmations(ctx, t, args, tables):
+            try:
+                res = ctx.mlr(argv, stdin=stdin, timeout=30, env_extra=ENV, as_limit=AS_LIMIT)
+            except (ValueError, OSError):
+                continue     # e.g. NUL byte in an argument
+            if crashed(res) or res.timed_out:
+                confirmed = True
+                ctx.guard(ctx.fail, {"kind": "cli", "argv": argv, "stdin": stdin.decode("latin-1"), "fuzz_target": t},
+                          "found by in-process fuzzing (%s: %s), confirmed through the command line: mlr %s -> %s" % (
+                              t, head.group(1)[:160] if head else "", " ".join(argv)[:300], (res.err[:160].decode("utf-8", "replace") if not res.timed_out else "no termination")))
+                break
+        if not confirmed:
+            keep = os.path.join(os.path.dirname(src), "replays", "C18")
+            os.makedirs(keep, exist_ok=True)
+            dst = os.path.join(keep, "unconfirmed-%s-%s" % (t, os.path.basename(crasher)))
+            shutil.copy(crasher, dst)
+            ctx.label("in-process failure not reproduced through the command line")
+            ctx.note("%s: in-process failure (%s) with input %s not reproduced through the command line: kept as %s, not a violation" % (
+                t, head.group(1)[:200] if head else out[-200:], [a[:60] if isinstance(a, bytes) else a for a in args], dst))
+    shutil.rmtree(work, ignore_errors=True)
+
+
+def replay_any(ctx, case):
+    if case.get("kind") == "cli":
+        return replay_cli(ctx, case)
+    return replay_item(ctx, case)
+
+
+SUBCHECKS += [
+    Sub("native_fuzz_in_process", sub_native_fuzz, replay_cli, shards={"quick": 1, "thorough": 4}, cost=6,
+        rule="thorough tier only: Go native coverage-guided fuzzing (/verif/fuzz, module replaced by the current tree) of 177 built-in functions with arguments decoded from fuzz bytes into ints/floats/strings/"
+             "JSON collections/booleans/error/absent, number inference round-trip, JSON decode-encode-decode stability, strptime, string-literal unbackslashing and Miller regex compilation; "
+             "every in-process failure is re-run through the mlr command line and only a reproduced crash or hang is a violation; evaluations = fuzz executions"),
+]
